@@ -1,5 +1,14 @@
 #!/usr/bin/env python3
-"""mutation self-test driver for C07 (sandbox only: a git worktree copy of /repo and a copy of /verif under /tmp/mt/c07seed)"""
+"""mutation self-test driver for C07 (sandbox only: a git worktree copy of /repo and a copy of /verif under /tmp/mt/c07seed;
+/repo and /verif are never touched).  Set-up (what tools/mutation_sandbox.sh does, kept between mutations so that cargo builds
+incrementally):
+  MT=/tmp/mt/c07seed; mkdir -p $MT; git -C /repo worktree add -q --detach $MT/repo HEAD
+  rsync -a --exclude 'harness/target*' --exclude .git --exclude 'work/tree/cache-*' --exclude replays --exclude work/c07 /verif/ $MT/verif/
+  sed -i "s#/repo/#$MT/repo/#g" $MT/verif/harness/Cargo.toml; cp /repo/Cargo.lock $MT/verif/harness/Cargo.lock; mkdir -p $MT/verif/replays
+  python3 tools/c07_mutation_selftest.py [M1-... ...]
+  git -C /repo worktree remove --force $MT/repo; rm -rf $MT
+Result 2026-10-01: all five mutations and seeded/C07-range-existing-lookup-unrestricted give exit 1, VIOLATION with a failing-input
+replay (sweep plan line + DISAGREE line) and `./check C07 --replay` reproduces the failure."""
 import subprocess, sys, os, re, json, glob
 MT = "/tmp/mt/c07seed"
 ER = "autosar-data/src/elementraw.rs"
